@@ -58,3 +58,14 @@ Theorem C16_still_torn_down : forall w, wf (lw w) -> forall o,
   forall c, In c (r_children (run w o)) -> c01_trace_ok w (c_ev c) = true.
 Proof. intros w Hwf o Ht. split; [apply c01_parent | apply c01_children]; assumption. Qed.
 Print Assumptions C16_still_torn_down.
+
+(* observation level: the predicate Obs.c16_ok evaluated on the implementation's observation holds of the model's
+   observation of every run; a sequential case without correspondence difference therefore satisfies it *)
+From ZT Require Import Chk_World Obs ModelCase ObsC16.
+Theorem C16_predicate_holds_of_model : forall w o inj,
+  wf (lw w) -> (forall t, In t (tests w) -> t_layer t < nlayers (lw w)) -> c16_ok (model_case w o inj) = true.
+Proof. exact c16_ok_model. Qed.
+Print Assumptions C16_predicate_holds_of_model.
+Theorem C16_check_sound : forall c, agree c = true -> wf_case c = true -> Nat.ltb 1 (o_procs (Chk_World.o c)) = false -> c16_ok c = true.
+Proof. exact c16_check_sound. Qed.
+Print Assumptions C16_check_sound.
